@@ -5,7 +5,7 @@ From Coq Require Import String.
 From Verif Require Import Base Sorter Value Seq Coll Pool PoolRun Params SetProofs AssocProofs Facade FacadeProofs ModuleLang ModuleSem ModuleFacts ModuleTactics GenModule.
 Open Scope Z_scope.
 Open Scope list_scope.
-Local Opaque class_ctor as_type fold_loop ranker rk_default set_add_all set_add convert_all convert_pairs array_fill zero_of zipkv a_set_all ordered.
+Local Opaque class_ctor as_type fold_loop ranker rk_default set_add_all set_add convert_all convert_pairs array_fill zero_of zipkv a_set_all ordered parsed_pairs.
 
 Definition opt_aslice (o : option (list (val * val))) : mval := match o with Some l => MArgV (AAssocSlice l) | None => MNone end.
 Definition opt_map (o : option (list (val * val))) : mval := match o with Some l => MArgV (AGoMap l []) | None => MNone end.
@@ -24,8 +24,7 @@ Ltac pairs_tree asc mp asq txt prs :=
   (destruct mp as [[|?p ?l]|]; [ | leaf | ];
    (destruct asq as [[|?p ?l]|]; [leaf|leaf|];
     (destruct txt as [|?ch ?t]; [leaf|];
-     (destruct prs as [?pv|]; [|leaf];
-      destruct pv; match goal with |- context [PColl (VMapping ?k _ _)] => destruct k; match goal with |- context [VMapping MGoMap] => leaf | |- _ => idtac end | |- _ => leaf end)))).
+     (destruct prs as [?pv|]; [|leaf])))).
 
 Lemma map_post : forall args0 tk tv f s scr, length scr = 10%nat ->
   result_of (exec args0 (30 + f) (ctx0 tk tv) (env_pairs s scr) (post_body gen_Map)) =
@@ -34,7 +33,9 @@ Proof.
   intros args0 tk tv f s scr L. explode scr 10. destruct s as [sz hs vals sq txt prs cl asc mp asq].
   unfold env_pairs, src_of, opt_aslice, opt_map, opt_aseq. cbn [s_text s_parsed s_assocs s_map s_aseq app]. norm_body.
   pairs_tree asc mp asq txt prs.
-  all: cbn [plus]; timeout 60 to_loop.
+  all: cbn [plus]; timeout 60 to_loop; timeout 30 rhs_open_keep.
+  all: destruct (parsed_pairs (PColl pv)) as [kvs|]; [|timeout 60 fin2].
+  all: timeout 60 to_loop.
   all: match goal with |- context [fold_loop ?st ?its ?env] =>
          pose proof (pairs_loop args0 tk tv _ _ _ _ _ st its false (fun kv e => eq_refl)
                        ltac:(cbn; congruence) ltac:(cbn; congruence) ltac:(cbn; congruence) ltac:(cbn; congruence) ltac:(cbn; congruence) ltac:(cbn; congruence)
